@@ -1,6 +1,10 @@
 #!/bin/sh
-# try_seed.sh <patch> <PROP> [tier]: apply a seeded patch to /repo, run the check, undo. Prints the verdict lines.
+# try_seed.sh <patch> <PROP> [tier]: run the check of PROP against a scratch copy of /repo with a seeded patch applied.
+# Nothing in /repo or /verif/evidence is touched: the copy is a git worktree under /tmp, build and evidence go to /tmp as well,
+# so this can run next to ordinary checks. Prints the verdict lines.
 P=$1; ID=$2; TIER=${3:-quick}
-git -C /repo apply "$P" || { echo "patch does not apply"; exit 2; }
-cd /verif && python3 verif.py check $ID --tier $TIER 2>/dev/null | grep -v "^KNOWN-FINDING" | head -${LINES_MAX:-6}
-git -C /repo checkout -- .
+S=/tmp/seedtrial-$$; WT=$S/repo
+mkdir -p $S && git -C /repo worktree add -q --detach $WT HEAD || { echo "cannot create scratch worktree"; exit 2; }
+git -C $WT apply "$P" || { echo "patch does not apply"; git -C /repo worktree remove --force $WT; rm -rf $S; exit 2; }
+cd /verif && VERIF_REPO=$WT VERIF_BUILD=$S/build VERIF_EVIDENCE=$S/evidence python3 verif.py check $ID --tier $TIER 2>/dev/null | grep -v "^KNOWN-FINDING" | head -${LINES_MAX:-6}
+git -C /repo worktree remove --force $WT; rm -rf $S
